@@ -94,10 +94,7 @@ def reinterpret_expr(expr, symbols_from, symbols_to):
             elif op == OP_CONSTPOW:
                 work[o[0]] = work[i[0]]**work[i[1]]
             else:
-                print('Unknown operation: ', op)
-
-                print('------')
-                print('Evaluated ' + str(f))
+                raise Exception("Operation (casadi op code %d) not supported in this context: only polynomial expressions (+,-,*,**n) are allowed, e.g. for constraints with grid='inf'." % op)
 
     return output_val[0]
 
